@@ -104,8 +104,13 @@ CHECKS = {
               '_handle_response leaves unsolicited/duplicate/late responses unattributed, drops wrong-type responses, and '
               'copies tracking fields only from the submit stored under exactly that number for submit_sm_resp/generic_nack. '
               'Tied to sequence.py directly and to the real ESME._handle_response on histories with duplicates, unknown '
-              'numbers, wrong types and generic_nacks.'),
-        note=COMMON_NOTE + 'A whole _handle_response is one atomic step; that the number is assigned per request at send time (esme.py:380-385) and interleavings of senders are part of the session model (C15).',
+              'numbers, wrong types and generic_nacks. TURN LEVEL (Model/SweepTasks.lean): matched_at_most_once_under_interleaving - with the '
+              'correlator operations interleaved at their suspension points in any schedule, a request stored once is matched or swept '
+              'out at most once in total; tied by random schedules driven through the real correlator (c.sched). SESSION LEVEL '
+              '(predicate, no theorem): real sessions in which the application queues message objects a second time and clones of '
+              'objects already sent - every submit_sm on the wire carries a sequence number of its own and a response is attributed '
+              'only to the message whose request went out under its number.'),
+        note=COMMON_NOTE + 'In the tier 2 part a whole _handle_response is one atomic step; the turn-level model covers the interleavings of correlator operations (suspension in the send_error hook), not the rest of the handler. That the number is assigned per request at send time (esme.py:380-385) is observed on the wire of real sessions, and modelled for the Sender in C06 (Model/SenderLoop.lean).',
         technique='Lean 4 theorems (induction over generator calls; case analysis of the handler over the store); differential correspondence through the real handler'),
     'C14': dict(
         text=('Proof (tier 2, atomic correlator operations, virtual clock). Props/C14.lean: every send_error(TimeoutError) of a '
@@ -122,9 +127,16 @@ CHECKS = {
               'unanswered_reported_exactly_once - it is reported exactly once as soon as any request is stored (probes included) '
               'or any response handled after the time-to-live, and never again. Session level (no theorem): the C01 session ledger checks on real sessions '
               'that an unanswered message is reported neither before its time-to-live nor later than the following keep-alive '
-              'probes allow. That a probe is in fact sent every enquire_link_interval is C16 (session model).'),
-        note=COMMON_NOTE + 'time.monotonic replaced by a virtual clock in quanta of 1/1024 s (floats exact). Operations are atomic here; a hook that suspends inside _remove_expired is a session-level interleaving.',
-        technique='Lean 4 theorems (induction over the key snapshot of the sweep, frame lemmas); differential correspondence on a virtual clock'),
+              'probes allow. That a probe is in fact sent every enquire_link_interval is C16 (session model). TURN LEVEL '
+              '(Model/SweepTasks.lean: put/get as coroutines that give up control in the send_error hook of their sweep; other operations start '
+              'and resume in between, each sweeping its own snapshot): exactly_once_under_interleaving - over EVERY schedule a request stored once '
+              'leaves the store at most once, so it is never reported twice and never both reported and answered (counting invariant '
+              'removals + live <= insertions + live-before, by induction over the schedule); interleaved_never_early; '
+              'interleaved_nothing_passed_over (a sweep never skips an overdue request that is still stored). Tied to correlator.py by random '
+              'schedules: every send_error call blocks until the schedule resumes its operation while other operations start; hook calls in order, '
+              'matches and final stores equal the model (c.sched); plus predicate-only interleaved histories through the real handler.'),
+        note=COMMON_NOTE + 'time.monotonic replaced by a virtual clock in quanta of 1/1024 s (floats exact). Tier 2 operations are atomic; the turn-level model has one suspension point per hook call of the sweep (the only await of put/get that can suspend); suspensions of the received hook or of the transport are session matters (C15, C01 ledger).',
+        technique='Lean 4 theorems (induction over the key snapshot of the sweep, frame lemmas; counting invariant over arbitrary schedules of turns); differential correspondence on a virtual clock, schedules included'),
     'C01': dict(
         text=('Proof, PARTIAL (tier 2, atomic handlers), with two known findings. Props/C01.lean over the model of '
               'SimpleCorrelator + the correlation part of ESME._handle_response after repairs f3792e2, 4216ec2, 30f1721, '
@@ -190,11 +202,17 @@ CHECKS = {
               'and the SMPP time format round trip (sm_round_trip_short, those facts as explicit hypotheses; sm_round_trip_gsm with none '
               'left: default alphabet GSM 03.38, automatic encoding, any text over the alphabet up to 254 octets; sm_round_trip_gsm_payload: '
               'the same with the text in message_payload up to 65535 octets; time_facts_abs/rel discharge the time hypotheses from C17). '
-              'With optional parameters or a UDH the round trip is NOT a theorem: it is decided by the octet-for-octet '
-              'correspondence of the model encoder and decoder with the code plus the round-trip predicate on generated '
-              'messages (all alphabets, boundary lengths 0/254/255, TLVs of every value type, both time forms, payload).'),
+              'WITH OPTIONAL PARAMETERS (Lemmas/TlvRound.lean): sm_round_trip_params / sm_round_trip_payload_params / sm_round_trip_gsm_params / '
+              'sm_round_trip_gsm_payload_params - any list of parameters SMPP 3.4 allows (two-octet tag other than message_payload, value of '
+              'the tag\'s type and width from the regenerated table) comes back in the order given, normalised as documented (an unset flag is '
+              'absent, a bool held for an integer parameter reads back 0/1; SAR parameters are withheld under UDHI), text in short_message or in '
+              'message_payload - induction through the TLV loop of from_pdu. Serialising the same object again gives the same bytes '
+              '(C04 resend_same_bytes). NOT theorems: a UDH inside the text, codecs other than GSM 03.38 (explicit codec facts as hypotheses); '
+              'these are decided by the octet-for-octet correspondence of the model encoder and decoder with the code plus the round-trip '
+              'predicate on generated messages (all alphabets, boundary lengths 0/254/255, TLVs of every value type, both time forms, payload, '
+              'second serialisation of the same object, automatic encoding must fall back to UCS2).'),
         note=COMMON_NOTE + 'CPython codecs other than gsm0338/gsm0338_packed/ucs2/ascii/latin_1 and registered error handlers are opaque (not judged). Text outside the chosen alphabet under a lossy error mode, and an explicit gsm0338 encoding differing from the configured default, are outside the round-trip domain (see DESIGN.md).',
-        technique='Lean 4 theorems (length bookkeeping over all constructors, pack/unpack inverse by radix lemmas); differential correspondence octet for octet + round-trip predicate'),
+        technique='Lean 4 theorems (length bookkeeping over all constructors, pack/unpack inverse by radix lemmas, induction through the TLV loop); differential correspondence octet for octet + round-trip predicate'),
     'C04': dict(
         text=('Proof, PARTIAL, one known finding. Props/C04.lean against Spec/Smpp34.lean (SMPP 3.4 transcribed without reference '
               'to the code): all 65,536 TLV tags have the value type and width of 5.3.2; command ids and data_coding values; '
@@ -205,7 +223,9 @@ CHECKS = {
               'short_message or in a message_payload parameter (decode_mandatory_fields, decode_message_payload), followed by ANY '
               'list of optional parameters laid out as tag/length/value - integers of width 1, 2, 4, ASCII strings with or without '
               'NUL, flags, any tag but message_payload, any order and number - which are read back in order with the value type of '
-              'the regenerated tag table (decode_optional_params: induction over the parameter list through the TLV loop). NOT theorems '
+              'the regenerated tag table (decode_optional_params: induction over the parameter list through the TLV loop); resend_same_bytes - pdu() '
+              'changes the object it serialises (encoding chosen, _encoded_message kept or cleared), and a second call on the same object returns '
+              'the same bytes for every message of every class (model pduAgain, op pdu.enc2). NOT theorems '
               '(decided by correspondence + an independent Python encoder): bind bodies against the reference, the encoder side of '
               'string TLVs, choice of data_coding and text octets, omitted response bodies, sc_interface_version, UDH 8/16-bit. Known finding udh-other-ie-first (a UDH whose '
               'first element is not the concatenation element is misread; kernel-checked on the model, replayed on the code).'),
@@ -283,7 +303,12 @@ CHECKS = {
               'and start() answers with a reconnect. Tied to esme.py by feeding the malformed streams (all command ids, corruptions of '
               'every field, receipts, UDHI, undecodable text per data coding, TLV length perturbations, foreign shapes, random bodies) to a '
               'real bound session on the virtual-time loop: what is written and whether the link stays up equals the model; predicate: one '
-              'response per request, none per response, start() never ends, a following enquire_link is answered. Mis-framed streams '
+              'response per request, none per response, start() never ends, a following enquire_link is answered. STREAM LEVEL '
+              '(Model/ReceiveLoop.lean: _get_pdu in a loop - 16 octets, header, command_length-16 more octets): stream_handled_pdu_by_pdu - a '
+              'stream of PDUs with recognised headers followed by an incomplete remainder is handled PDU by PDU, in order, whatever the '
+              'bodies are, and the loop is still running afterwards ("valid PDUs that follow are processed normally"); tied by streams of '
+              'mixed PDUs delivered in pieces of arbitrary size (op rxs: responses in order, link dropped or not). Inbound PDUs also meet a '
+              'correlator that holds state (segmented messages accepted, then receipts incl. malformed ones for known ids). Mis-framed streams '
               '(truncation at every offset, length field larger/smaller, garbage) are judged by the predicate only.'),
         note=COMMON_NOTE + 'RuntimeError is the model stand-in for text codecs it does not describe (excluded by hypothesis; those PDUs go to the real session and are judged by the predicate). Hooks and transport writes are assumed not to fail here. The decoder model is the one tied to protocol.py by the C03/C04/C20 correspondences.',
         technique='Lean 4 theorems (compositional exception-class analysis of the decoder, kernel-checked coverage of the regenerated catch matrix); differential correspondence through a real session on a virtual-time loop'),
@@ -297,8 +322,14 @@ CHECKS = {
               'sender_survives. Tied to esme.py by queueing constructible messages (C03 field space with values the wire does not '
               'allow, every text length class in GSM/UCS2/mixed/astral, auto_message_payload on/off, UDHI on/off, explicit and unknown '
               'encodings, error_handling values) to a real bound session on the virtual-time loop: the PDUs written (octet for octet, '
-              'all segments) or the error class handed to send_error equal the model. Observed, not proved: send_error exactly once, '
-              'the message queued next is transmitted, start() keeps running.'),
+              'all segments) or the error class handed to send_error equal the model. QUEUE LEVEL (Model/SenderLoop.lean: the loop over the '
+              'whole queue with the sequence-number and reference generators threaded through; a number is drawn before pdu() is built): '
+              'queue_in_order / queue_never_stops / wire_in_queue_order - for every queue of constructible messages and every generator state '
+              'there is exactly one result per message, in queue order, none ends the task, and the wire is the concatenation of the '
+              'per-message PDUs in that order; tied by whole queues handed to the broker at once (op txq). Observed, not proved: that the hook '
+              'calls made are these results (send_error exactly once and with the failing message itself - each queued message carries a '
+              'log_id of its own), start() keeps running. Encoding names of the Python codec registry that are not text encodings are in the '
+              'generator (genuine defect repaired in d253e77).'),
         note=COMMON_NOTE + 'RuntimeError is the model stand-in for text codecs it does not describe (excluded by hypothesis; such messages go to the real session and are judged by the predicate). Hooks, rate limiter and transport writes are assumed not to fail here.',
         technique='Lean 4 theorems (compositional exception-class analysis of the encoder and the sender iteration, kernel-checked coverage of the regenerated isinstance tuple); differential correspondence through a real session on a virtual-time loop'),
     'C15': dict(
